@@ -200,7 +200,7 @@ class SamplerCore:
         x = self.state.get_history("x", flat=True)
         logl = self.state.get_history("logl", flat=True)
 
-        if self.config.blobs_dtype is not None:
+        if self.state.get_current("blobs") is not None:
             blobs = self.state.get_history("blobs", flat=True)
         else:
             blobs = None
